@@ -8,6 +8,7 @@ import (
 	"path/filepath"
 	"strings"
 	"syscall"
+	"testing/synctest"
 	"time"
 
 	"github.com/benbjohnson/litestream"
@@ -51,6 +52,10 @@ func genC11(r *Rng, tier string, idx int) *Program {
 	p.Cfg.StepGapMs = 1000
 	n := r.Range(8, 30)
 	nRestore := 0
+	if r.Chance(0.25) {
+		genC11LaggingFollower(r, p)
+		n = r.Range(0, 8)
+	}
 	for i := 0; i < n; i++ {
 		switch r.Pick([]int{35, 18, 6, 8, 4, 4, 4, 3, 4, 5, 3, 3}) {
 		case 0:
@@ -94,6 +99,41 @@ func genC11(r *Rng, tier string, idx int) *Program {
 		p.Ops = append(p.Ops, Op{Kind: "v3_restore", N: int64(r.Intn(4))})
 	}
 	return p
+}
+
+// genC11LaggingFollower: a follower that was stopped early and comes back after
+// the level-0 files it needs were removed, the older level-1 files went with an
+// expired snapshot and only a level-2 file still reaches back to its position:
+// the gap is bridged in more than one poll (each publishes the sidecar).
+func genC11LaggingFollower(r *Rng, p *Program) {
+	p.Variant = "lagging-follower"
+	p.Cfg.LevelMs = []int64{2000, 9000}
+	p.Cfg.SnapshotRetentionMs = 100000
+	p.Cfg.L0RetentionMs = 1
+	p.Cfg.RetentionEnabled = true
+	txns := func(n int) {
+		for i := 0; i < n; i++ {
+			st := genTxn(r, &p.Cfg)
+			st.Rollback = false
+			p.Ops = append(p.Ops, appOp(st), Op{Kind: "ls_sync_wait"})
+		}
+	}
+	add := func(ops ...Op) { p.Ops = append(p.Ops, ops...) }
+	txns(r.Range(1, 2))
+	add(Op{Kind: "ls_snapshot"}, Op{Kind: "follow_ticks", N: 2}, Op{Kind: "follow_stop"})
+	txns(r.Range(1, 3))
+	add(Op{Kind: "sleep", Ms: 2500}, Op{Kind: "ls_compact", Level: 1}) // L1 [1..a]
+	txns(r.Range(1, 2))
+	add(Op{Kind: "ls_snapshot"}) // s > a: the snapshot whose expiry sets the retention floor
+	txns(r.Range(1, 2))
+	add(Op{Kind: "sleep", Ms: 2500}, Op{Kind: "ls_compact", Level: 1}, Op{Kind: "sleep", Ms: 10000}, Op{Kind: "ls_compact", Level: 2}) // L1 [a+1..b], L2 [1..b]
+	add(Op{Kind: "sleep", Ms: 100000})
+	txns(r.Range(1, 3))
+	add(Op{Kind: "sleep", Ms: 2500}, Op{Kind: "ls_compact", Level: 1}) // L1 [b+1..c]
+	txns(r.Range(1, 2))
+	add(Op{Kind: "ls_snapshot"})
+	txns(r.Range(0, 2))
+	add(Op{Kind: "ls_l0_retention"}, Op{Kind: "ls_snap_retention"}, Op{Kind: "follow_ticks", N: 1}, Op{Kind: "follow_ticks", N: 2})
 }
 
 type c11state struct {
@@ -190,6 +230,12 @@ func init() {
 		e.Res.Probes["v3_restores"]++
 		return errStr(rep.Restore(ctx, opt)), false
 	}
+	extraOps["follow_stop"] = func(e *Env, op *Op) (string, bool) {
+		if c11FollowOp == nil {
+			return "noop:nofollow", false
+		}
+		return c11FollowOp(e, op)
+	}
 	extraOps["follow_ticks"] = func(e *Env, op *Op) (string, bool) {
 		if c11FollowOp == nil {
 			return "noop", false
@@ -200,6 +246,19 @@ func init() {
 
 // c11Follow starts (once) a follow-mode restore in the bubble and lets it tick.
 func c11Follow(e *Env, st *c11state, op *Op) (string, bool) {
+	if op.Kind == "follow_stop" {
+		// the follower process goes away; a later follow_ticks starts a new one
+		// that resumes from the output file and its sidecar
+		if !st.followOn {
+			return "noop:off", false
+		}
+		st.followCtx()
+		st.followOn = false
+		time.Sleep(10 * time.Millisecond)
+		synctest.Wait()
+		e.Res.Probes["follow_stops"]++
+		return "ok", false
+	}
 	if len(e.FS.Listing(0)) == 0 && len(e.FS.Listing(litestream.SnapshotLevel)) == 0 {
 		return "noop:empty", false
 	}
